@@ -322,6 +322,14 @@ def mut_optional_argument_without_default(text, pm, rng):
 
 
 def mut_optional_argument_non_none_default(text, pm, rng):
+    return _default_mutation(text, pm, rng, primitive=True)
+
+
+def mut_optional_argument_non_primitive_default(text, pm, rng):
+    return _default_mutation(text, pm, rng, primitive=False)
+
+
+def _default_mutation(text, pm, rng, primitive):
     tree = ast.parse(text)
     candidates = [
         _init_of(c) for c in classes_of(tree, pm)
@@ -331,8 +339,18 @@ def mut_optional_argument_non_none_default(text, pm, rng):
         return None
     init = rng.choice(candidates)
     k = rng.randrange(len(init.args.defaults))
-    init.args.defaults[k] = ast.Constant(rng.choice([5, "x", True, 1.5]))
-    return Mutation("constructor/optional-argument-default-not-None", _unparse(tree))
+    enums = [n for n, c in pm.classes.items() if c.is_enum and c.literals]
+    choices = [ast.Constant(5), ast.Constant("x"), ast.Constant(True), ast.Constant(1.5),
+               ast.List([], ast.Load()), ast.Call(ast.Name("list", ast.Load()), [], [])]
+    if enums:
+        enum = rng.choice(enums)
+        choices.append(ast.Attribute(ast.Name(enum, ast.Load()), pm.classes[enum].literals[0][0], ast.Load()))
+        choices.append(ast.Attribute(ast.Name(enum, ast.Load()), pm.classes[enum].literals[0][0], ast.Load()))
+    choices = [c for c in choices if isinstance(c, ast.Constant) == primitive]
+    chosen = rng.choice(choices)
+    init.args.defaults[k] = chosen
+    kind = "primitive" if isinstance(chosen, ast.Constant) else "non-primitive"
+    return Mutation(f"constructor/optional-argument-default-not-None/{kind}", _unparse(tree))
 
 
 class _TypeRewriter(ast.NodeTransformer):
@@ -475,18 +493,21 @@ def _pattern_functions(tree: ast.Module, pm: pyexec.PyModel) -> List[Tuple[ast.F
     return result
 
 
-def mut_pattern_not_anchored(text, pm, rng):
+def _pattern_mutation(text, pm, rng, kind):
     tree = ast.parse(text)
     fns = _pattern_functions(tree, pm)
     if not fns:
         return None
     fn, assign = rng.choice(fns)
     pattern = pm.functions[fn.name].pattern
-    kind = rng.choice(["no-start-anchor", "no-end-anchor", "empty"])
     if kind == "no-start-anchor":
         new = pattern[1:]
     elif kind == "no-end-anchor":
         new = pattern[:-1]
+    elif kind == "alternation-at-root-unanchored-branch":
+        new = pattern + "|x"
+    elif kind == "alternation-at-root-unanchored-first-branch":
+        new = "x|" + pattern
     else:
         new = ""
     benign_tree = copy.deepcopy(tree)
@@ -495,6 +516,26 @@ def mut_pattern_not_anchored(text, pm, rng):
     benign_assign = [s for s in benign_fn.body if isinstance(s, ast.Assign) and s.targets[0].id == "pattern"][-1]
     benign_assign.value = ast.Constant("^[a-f]+x?$")
     return Mutation(f"pattern/{kind}", _unparse(tree), benign=_unparse(benign_tree))
+
+
+def mut_pattern_no_start_anchor(text, pm, rng):
+    return _pattern_mutation(text, pm, rng, "no-start-anchor")
+
+
+def mut_pattern_no_end_anchor(text, pm, rng):
+    return _pattern_mutation(text, pm, rng, "no-end-anchor")
+
+
+def mut_pattern_empty(text, pm, rng):
+    return _pattern_mutation(text, pm, rng, "empty")
+
+
+def mut_pattern_alternation_unanchored_branch(text, pm, rng):
+    return _pattern_mutation(text, pm, rng, "alternation-at-root-unanchored-branch")
+
+
+def mut_pattern_alternation_unanchored_first_branch(text, pm, rng):
+    return _pattern_mutation(text, pm, rng, "alternation-at-root-unanchored-first-branch")
 
 
 # ------------------------------------------------------------------------------
